@@ -175,3 +175,74 @@ pub fn eq_mod_map_order(a: &Item, b: &Item) -> bool {
         _ => a == b,
     }
 }
+
+/// Depth (containers entered by a single parse, the map itself included) of every map of `item`,
+/// in depth-first order.  The content of a wrapped byte string is parsed on its own, so depth
+/// restarts there.
+fn map_depths(item: &Item, depth: usize, inside: bool, out: &mut Vec<(usize, bool)>) {
+    match item {
+        Item::Array(v) => v.iter().for_each(|x| map_depths(x, depth + 1, inside, out)),
+        Item::Map(m) => {
+            out.push((depth + 1, inside));
+            m.iter().for_each(|(_, v)| map_depths(v, depth + 1, inside, out));
+        }
+        Item::Tag(_, x) => map_depths(x, depth + 1, inside, out),
+        Item::Wrapped(w) if w.is_clean() => map_depths(&w.inner, 0, true, out),
+        _ => {}
+    }
+}
+
+fn plant_at(item: &mut Item, k: &mut usize, entry: &mut Option<(Item, Item)>) {
+    if entry.is_none() {
+        return;
+    }
+    match item {
+        Item::Array(v) => v.iter_mut().for_each(|x| plant_at(x, k, entry)),
+        Item::Map(m) => {
+            if *k == 0 {
+                m.push(entry.take().unwrap());
+                return;
+            }
+            *k -= 1;
+            m.iter_mut().for_each(|(_, v)| plant_at(v, k, entry));
+        }
+        Item::Tag(_, x) => plant_at(x, k, entry),
+        Item::Wrapped(w) if w.is_clean() => plant_at(&mut w.inner, k, entry),
+        _ => {}
+    }
+}
+
+/// A value nested `d` containers deep around an integer: arrays, tags, one-entry maps or a mixture.
+pub fn deep_item(d: usize, kind: usize) -> Item {
+    let mut x = Item::Int(0);
+    for i in 0..d {
+        x = match if kind == 3 { i % 3 } else { kind } {
+            0 => Item::Array(vec![x]),
+            1 => Item::Tag(1000, Box::new(x)),
+            _ => Item::Map(vec![(Item::Int(0), x)]),
+        };
+    }
+    x
+}
+
+/// Plant, under a fresh text label, a value in one of the maps of `item` (header, key, claims-set
+/// or opaque value map at any nesting level, inside protected byte strings too) such that the
+/// innermost leaf sits `total` containers deep in the parse that reads it (`outer` = containers
+/// around the whole item, e.g. 1 for a tag head).  Returns (depth of the chosen map, depth of the value).
+pub fn plant_deep(item: &mut Item, g: &mut Gen, total: usize, outer: usize) -> Option<(usize, usize)> {
+    let mut depths = vec![];
+    map_depths(item, 0, false, &mut depths);
+    if depths.is_empty() {
+        return None;
+    }
+    let mut k = g.below(depths.len());
+    // the content of a wrapped string starts a parse of its own: no outer containers there
+    let (p, inside) = depths[k];
+    let d = total.checked_sub(p + if inside { 0 } else { outer })?;
+    let mut entry = Some((Item::Text(format!("~deep{}", d)), deep_item(d, g.below(4))));
+    plant_at(item, &mut k, &mut entry);
+    if entry.is_some() {
+        return None;
+    }
+    Some((p, d))
+}
